@@ -179,6 +179,9 @@ def norm_cond(c):
 # ---------------------------------------------------------------------------
 # explorer
 
+INFEASIBLE = object()
+
+
 class Trace:
     __slots__ = ('steps',)
 
@@ -253,7 +256,7 @@ class Explorer:
         fn        Function
         init      initial user state (hashable)
         on_event  (user, ev, ctx) -> user
-        on_edge   (user, bid, idx, atom, sense, ctx) -> user | None (infeasible)
+        on_edge   (user, bid, idx, atom, sense, ctx) -> user | INFEASIBLE
         on_exit   (user, ctx, retexpr)  called at each 'return' event and at a
                   fall-off-the-end exit (retexpr None)
         calls     set of callee names whose tested results are remembered as
@@ -454,6 +457,16 @@ class Explorer:
             return None
         if atom is None:
             return env
+        akey = None
+        if self.atom_key is not None:
+            akey = self.atom_key(atom, lambda e: self.resolve_call(e, env))
+            if akey is not None:
+                prev = env.get(('atom', akey))
+                # the same condition was decided earlier on this path and nothing it
+                # mentions was written since (facts are dropped on such writes)
+                if isinstance(prev, bool) and prev != sense and isinstance(akey, tuple) \
+                        and akey and isinstance(akey[-1], frozenset):
+                    return None
         new = dict(env)
         if atom[0] == 'truthy':
             e = atom[1]
@@ -463,10 +476,9 @@ class Explorer:
             elif is_ref(e) and e.get('id') in self.tracked:
                 v = env.get(('v', e['id']))
                 if v and v[0] == 'call':
-                    if self._want_callid(v[1]):
-                        new[('res', v[1])] = sense
-                    if not sense:
-                        pass
+                    # the variable is tracked, so the outcome of the call it holds is
+                    # remembered even if the callee is not in `calls`
+                    new[('res', v[1])] = sense
                 elif v is None or v[0] in ('?', 'undef', 'out'):
                     new[('v', e['id'])] = ('nz',) if sense else ('c', 0)
         elif atom[0] == 'cmp' and atom[1] == '==':
@@ -479,10 +491,8 @@ class Explorer:
                     new[('v', l['id'])] = ('c', r['v'])
             elif l.get('k') == 'call' and is_int(r) and self._want_call(l):
                 new[('res', l['id'])] = ('eq' if sense else 'ne', r['v'])
-        if self.atom_key is not None:
-            key = self.atom_key(atom, lambda e: self.resolve_call(e, env))
-            if key is not None:
-                new[('atom', key)] = sense
+        if akey is not None:
+            new[('atom', akey)] = sense
         return new
 
     def resolve_call(self, e, env):
@@ -571,7 +581,7 @@ class Explorer:
                     if self.on_edge is not None:
                         ctx.env = env2
                         u2 = self.on_edge(user, bid, idx, atom, edge_sense, ctx)
-                        if u2 is None:
+                        if u2 is INFEASIBLE:
                             continue
                     self._push(node, s, u2, env2, work)
                 continue
@@ -609,7 +619,7 @@ class Explorer:
             if self.on_edge is not None:
                 ctx.env = env2
                 u2 = self.on_edge(user, blk['id'], ('case', lo, hi), ('switch', cond), True, ctx)
-                if u2 is None:
+                if u2 is INFEASIBLE:
                     continue
             self._push(node, s, u2, env2, work)
         if default is not None:
@@ -617,7 +627,7 @@ class Explorer:
             if self.on_edge is not None:
                 ctx.env = env
                 u2 = self.on_edge(user, blk['id'], ('default',), ('switch', cond), True, ctx)
-                if u2 is None:
+                if u2 is INFEASIBLE:
                     return
             self._push(node, default, u2, env, work)
 
